@@ -78,19 +78,23 @@ theorem lookupLoop_shape :
       "assign c, ok := t.channelMap[channelName]", "return return ok && !c.Exiting()"] := ⟨rfl, rfl, rfl⟩
 
 /-- `GetTopic` on a new topic: lookupd channel query and `GetChannel` for each non-`#ephemeral` name happen
-*before* `t.Start()`; skipped while loading metadata (`LookupSync.precreate`).
+*before* `t.Start()`; skipped while loading metadata and (F26, /repo 1121881) while nsqd is exiting — then the topic is
+handed out CLOSED and nothing is pre-created or started (`LookupSync.precreate` describes an nsqd that is neither
+loading nor exiting).
 Exactly two shapes are accepted until fixes/F35_precreate_validates_channel_names.patch is committed: the current one
 (every other name is created verbatim: `precreateG false`, finding `precreate-unvalidated-channel-name`, replayed) and
 the one with F35 (`IsValidChannelName` tested before `GetChannel`: `precreateG true` = `precreate`). -/
 theorem getTopic_precreate_before_start :
-    (getTopicPrecreate = ["call:NewTopic", "call:lookupdHTTPAddrs", "call:GetLookupdTopicChannels", "call:HasSuffix",
-      "call:GetChannel", "call:Start"] ∧
-     getTopicGuards = ["if atomic.LoadInt32(&n.isLoading) == 1", "if len(lookupdHTTPAddrs) > 0",
+    (getTopicPrecreate = ["call:NewTopic", "call:Close", "call:lookupdHTTPAddrs", "call:GetLookupdTopicChannels",
+      "call:HasSuffix", "call:GetChannel", "call:Start"] ∧
+     getTopicGuards = ["assign exiting := atomic.LoadInt32(&n.isExiting) == 1", "if exiting",
+      "if atomic.LoadInt32(&n.isLoading) == 1", "if len(lookupdHTTPAddrs) > 0",
       "if strings.HasSuffix(channelName, \"#ephemeral\")"]
      ∨
-     getTopicPrecreate = ["call:NewTopic", "call:lookupdHTTPAddrs", "call:GetLookupdTopicChannels", "call:HasSuffix",
-      "call:IsValidChannelName", "call:GetChannel", "call:Start"] ∧
-     getTopicGuards = ["if atomic.LoadInt32(&n.isLoading) == 1", "if len(lookupdHTTPAddrs) > 0",
+     getTopicPrecreate = ["call:NewTopic", "call:Close", "call:lookupdHTTPAddrs", "call:GetLookupdTopicChannels",
+      "call:HasSuffix", "call:IsValidChannelName", "call:GetChannel", "call:Start"] ∧
+     getTopicGuards = ["assign exiting := atomic.LoadInt32(&n.isExiting) == 1", "if exiting",
+      "if atomic.LoadInt32(&n.isLoading) == 1", "if len(lookupdHTTPAddrs) > 0",
       "if strings.HasSuffix(channelName, \"#ephemeral\")", "if !protocol.IsValidChannelName(channelName)"]) := by
   decide
 
